@@ -612,7 +612,49 @@ fn expected_sequence(
     Some(out)
 }
 
+/// No property fixes the order in which the children of a directory are visited, so the two
+/// sequences are compared in a canonical order (pre-order with siblings by name, an entry before
+/// the error naming the same path); that items are delivered *in place* is judged on the real
+/// sequence itself: the items at or beneath any directory form one contiguous run (an error or
+/// entry delivered late or early breaks a run).
 fn compare_sequences(real: &[(bool, String, bool, usize)], expected: &[SeqItem], prefix_len: usize) -> Option<String> {
+    {
+        use std::collections::BTreeMap;
+        let mut spans: BTreeMap<String, (usize, usize, usize)> = BTreeMap::new();
+        for (i, r) in real.iter().enumerate() {
+            if r.1 == "<no path>" {
+                continue;
+            }
+            let comps: Vec<&str> = r.1.split('/').filter(|c| !c.is_empty()).collect();
+            for k in 1..=comps.len() {
+                let d = comps[..k].join("/");
+                let e = spans.entry(d).or_insert((i, i, 0));
+                e.0 = e.0.min(i);
+                e.1 = e.1.max(i);
+                e.2 += 1;
+            }
+        }
+        let no_path = |lo: usize, hi: usize| real[lo..=hi].iter().filter(|r| r.1 == "<no path>").count();
+        for (d, (lo, hi, n)) in &spans {
+            if hi - lo + 1 != n + no_path(*lo, *hi) {
+                return Some(format!("the items at and beneath {:?} are not delivered in one run (an item is out of place): {:?}", d, real.iter().map(show_real).collect::<Vec<_>>()));
+            }
+        }
+    }
+    let key = |rel: &str, ok: bool| -> (Vec<String>, bool) { (rel.split('/').filter(|c| !c.is_empty()).map(|c| c.to_string()).collect(), !ok) };
+    // items without a path cannot be placed canonically: they are counted, the others are ordered
+    let real_nopath = real.iter().filter(|r| r.1 == "<no path>").count();
+    let exp_nopath_required = expected.iter().filter(|e| e.rel == "<no path>" && !e.optional).count();
+    let exp_nopath_all = expected.iter().filter(|e| e.rel == "<no path>").count();
+    if real_nopath < exp_nopath_required || real_nopath > exp_nopath_all {
+        return Some(format!("{} error item(s) without a path where {}..={} are expected; observed {:?}", real_nopath, exp_nopath_required, exp_nopath_all, real.iter().map(show_real).collect::<Vec<_>>()));
+    }
+    let mut real_sorted: Vec<(bool, String, bool, usize)> = real.iter().filter(|r| r.1 != "<no path>").cloned().collect();
+    real_sorted.sort_by_key(|r| key(&r.1, r.0));
+    let mut expected_sorted: Vec<SeqItem> = expected.iter().filter(|e| e.rel != "<no path>").cloned().collect();
+    expected_sorted.sort_by_key(|e| key(&e.rel, e.ok));
+    let real = &real_sorted[..];
+    let expected = &expected_sorted[..];
     let mut j = 0;
     for (i, r) in real.iter().enumerate() {
         loop {
@@ -804,6 +846,9 @@ fn judge_fault_run(
         BaseWalk::Glob(g) => Glob::new(g).map_or(0, |g| g.partition().0.components().count()),
         BaseWalk::Path => 0,
     };
+    if !run.io_conversion_lost.is_empty() {
+        return Ok(Some((format!("an error item converted to io::Error no longer names the offending path: {}", run.io_conversion_lost.join("; ")), run.sequence.clone(), exp)));
+    }
     // "pass error items through unchanged and in place" also when the outermost combinator is
     // consumed directly (its own `next` drives the walk) instead of beneath the logging filter
     if !layers.is_empty() && compare_sequences(&run.sequence, &exp, prefix_len).is_none() {
